@@ -254,13 +254,42 @@ class ImapSession:
             return
         w = self.world
         try:
-            for parts in self.split.feed(data):
-                r = parse_response(parts)
-                self._handle(r)
+            responses = self.split.feed(data)
         except Malformed as e:
+            # framing itself is broken: nothing after this point can be trusted
             self.desync = True
             w.count("c07_stream")
             w.violate("C07", e.kind, session=self.sid, detail=e.detail[:200], cmd=self._curverb())
+            if self.cur_fut is not None and not self.cur_fut.done():
+                self.cur_fut.set_result("desync")
+            return
+        for parts in responses:
+            try:
+                r = parse_response(parts)
+            except Malformed as e:
+                w.count("c07_stream")
+                w.violate("C07", e.kind, session=self.sid, detail=e.detail[:200], cmd=self._curverb(), raw=bytes(parts[0][:120]))
+                r = self._salvage(parts)
+                if r is None:
+                    continue
+            self._handle(r)
+
+    def _salvage(self, parts):
+        """A response that framed correctly but does not tokenize: keep the
+        session going if it is the tagged completion of the current command."""
+        first = bytes(parts[0])
+        ws = first.split(b" ", 2)
+        c = self.cur
+        if c is not None and len(ws) >= 2 and ws[0].decode("latin-1") == c.tag and ws[1].upper() in (b"OK", b"NO", b"BAD"):
+            from model.resp import Resp
+
+            r = Resp()
+            r.raw = first + b"\r\n"
+            r.tag = c.tag
+            r.kind = r.status = ws[1].upper().decode()
+            r.text = ws[2].decode("latin-1") if len(ws) > 2 else ""
+            return r
+        return None
 
     def eof_received(self):
         self.eof = True
@@ -486,6 +515,9 @@ class ImapSession:
         c.bye = self.bye
         if how == "closed":
             c.closed = True
+        elif how == "desync":
+            c.closed = True
+            c.bye = True  # framing broken: already reported under C07; not a C06 matter
         else:
             c.timeout = True
         # the command never got its tagged reply
